@@ -6,8 +6,8 @@ ids = [json.loads(l)["id"] for l in open(os.path.join(HERE, "properties.jsonl"))
 
 CLAIMED = {
  "C01": dict(
-   text="Lean theorems (kernel-checked, unbounded in profile size, seats and oracle). STV family (every quota, transfer rule, simultaneous / one-by-one, tiebreak, every oracle value): one step of the count keeps the invariant 'hopeful, elected-so-far and eliminated-so-far partition the candidates; the seat counter equals the number of recorded winners; the recorded remaining groups are the hopeful candidates' (stvStep_inv), hence a finished STV / IRV / SequentialRCV count has elected EXACTLY m candidates (one for IRV) and at EVERY recorded round remaining / elected-up-to / eliminated-up-to list each candidate exactly once (C01_stv_exactly_m_and_partition, Good_suffix, C01_stv_round_lists_disjoint); status monotonicity is the append-only form of the cumulative lists. Single-round rules (Plurality, SNTV, Borda - the body shared with the score rules): exactly m winners, nobody eliminated, elected ++ remaining a permutation of the candidates, and with no tiebreak requested a finished election means the seat boundary falls between two equal-score groups (an unbroken boundary tie cannot return a result). The model is tied to /repo on every run by a correspondence check over all 18 rule classes (complete election_states or exception class, oracle = recorded tiebreaks + wrapped random primitives) and model-independent monitors (winner count, partition, monotone status, ValueError legitimacy via a reference count, 4 s non-termination alarm).",
-   note="Trusted: Lean kernel + propext/Classical.choice/Quot.sound; hand-written model as far as the correspondence samples it; random primitives as oracle. NOT yet theorems: termination of the STV loop within its fuel (a non-terminating or over-electing count shows up as outOfFuel / IndexError in the model and as the timeout monitor on the code), the composites (TopTwo, Alaska), DominatingSets/CondoBorda, the dictator rules and PluralityVeto (monitored on the implementation; PluralityVeto only there). Seven open known findings (F-C01-a,b,c,d,f,g,h) are reported as KNOWN-FINDING.",
+   text="Lean theorems (kernel-checked, unbounded in profile size, seats and oracle). STV family (every quota, transfer rule, simultaneous / one-by-one, tiebreak, every oracle value): one step of the count keeps the invariant 'hopeful, elected-so-far and eliminated-so-far partition the candidates; the seat counter equals the number of recorded winners; the recorded remaining groups are the hopeful candidates' (stvStep_inv), hence a finished STV / IRV / SequentialRCV count has elected EXACTLY m candidates (one for IRV) and at EVERY recorded round remaining / elected-up-to / eliminated-up-to list each candidate exactly once (C01_stv_exactly_m_and_partition, Good_suffix, C01_stv_round_lists_disjoint); status monotonicity is the append-only form of the cumulative lists. TERMINATION (C01_stv_terminates): for profiles of untied ranked ballots over declared candidates no configuration and no oracle value makes the count run out of fuel - every successful round removes a hopeful candidate (stvStep_decreases) and no callee of a step can answer outOfFuel (noFuel_stvStep) - so a count ends within #candidates+1 rounds with a result or an exception. Single-round rules (Plurality, SNTV, Borda - the body shared with the score rules): exactly m winners, nobody eliminated, elected ++ remaining a permutation of the candidates, and with no tiebreak requested a finished election means the seat boundary falls between two equal-score groups (an unbroken boundary tie cannot return a result). The model is tied to /repo on every run by a correspondence check over all 18 rule classes (complete election_states or exception class, oracle = recorded tiebreaks + wrapped random primitives) and model-independent monitors (winner count, partition, monotone status, ValueError legitimacy via a reference count, 4 s non-termination alarm).",
+   note="Trusted: Lean kernel + propext/Classical.choice/Quot.sound; hand-written model as far as the correspondence samples it; random primitives as oracle. NOT yet theorems: the composites (TopTwo, Alaska), DominatingSets/CondoBorda, the dictator rules and PluralityVeto (monitored on the implementation; PluralityVeto only there). Seven open known findings (F-C01-a,b,c,d,f,g,h) are reported as KNOWN-FINDING.",
    ref="DESIGN.md §4 C01, §5, §9"),
  "C04": dict(
    text="Lean theorems (all profiles, vectors, weights): every ballot hands out exactly the vector total (exact division), scores are the weight-summed declarative points over the original ballots. Correspondence on the four scoring utilities and Plurality/SNTV/Borda; monitors: point total, independent reference scoring, top-m.",
